@@ -679,3 +679,37 @@ Example C04_exec_cone_schedule_example :
   Engine.build_log xa_const xa_proj [xa_C; xa_B; xa_A; xa_B; xa_A; xa_C; xa_C] y1
   = [(1, true); (2, false); (3, false)].
 Proof. vm_compute. reflexivity. Qed.
+
+(* OPTIONAL steps in the engine: only REQUIRED steps are dispatched (mandatory, or an output consumed by a
+   required step later in the plan).  The build is the build over the required steps; every executed step is
+   mandatory or NEEDED - a required step consumes one of its outputs: the clause the property text lacks (D38) -
+   and was declared anew / redefined by the rerun plan or has a cause as in C04_exec_cone_all_schedules. *)
+Theorem C04_exec_cone_optional :
+  forall (run : N -> list (option N) -> list (option N) -> N -> N)
+         (mand : N -> bool) (P P' : Engine.project) (y : Engine.sys) (w : Engine.world) (s : Engine.step),
+    Engine.wf P' = true -> Engine.Pre run P y -> In s P' ->
+    let y1 := Engine.resync P' (Engine.retarget P P' y) w in
+    NoopExec.build_opt run mand P' y1 =
+    Engine.build_from run P' (filter (NoopExec.is_required mand P') P') y1 /\
+    (NoopExec.ran_opt run mand P' y1 (Engine.sid s) ->
+     (mand (Engine.sid s) = true \/
+      exists c, In c P' /\ NoopExec.is_required mand P' c = true /\ NoopExec.consumes_output_of c s = true) /\
+     (Engine.kept P P' (Engine.sid s) = false \/
+      NoopExec.exec_cause_s run P' (filter (NoopExec.is_required mand P') P') y y1
+                            (NoopExec.build_opt run mand P' y1) s)).
+Proof. exact NoopExecProofs.exec_cone_optional. Qed.
+
+(* the witness of D38 in the engine: A (optional, nothing needs it) is not built; a plan that adds a consumer X of
+   a's output makes A required: A and X are executed, A being needed by X *)
+Example C04_exec_cone_optional_example :
+  let A := Engine.mkStep 1 [10] [] [11] in
+  let X := Engine.mkStep 2 [11] [] [12] in
+  let mand := fun id => id =? 2 in
+  let w : Engine.world := (fun p => if p =? 10 then Some 1 else None, fun _ => None) in
+  let st := Engine.run_dyn Engine.mix_run [([A], w)] in
+  NoopExec.required_ids mand [A] = [] /\ NoopExec.required_ids mand [A; X] = [1; 2] /\
+  Engine.build_log Engine.mix_run [A; X] (filter (NoopExec.is_required mand [A; X]) [A; X])
+    (Engine.resync [A; X] (Engine.retarget [A] [A; X]
+       (Engine.build_from Engine.mix_run [A] (filter (NoopExec.is_required mand [A]) [A]) (Engine.init [A] (fst w) (snd w)))) w)
+  = [(1, true); (2, true)].
+Proof. vm_compute. repeat split; reflexivity. Qed.
